@@ -24,9 +24,11 @@ import (
 // ---------------------------------------------------------------------------
 
 type Machine struct {
-	lastBeat int64 // unix nanoseconds of the last sign of progress (atomic)
-	stopBeat chan struct{}
-	traceMu  sync.Mutex
+	freeIxNames []string     // names of dropped indexes (may be used again)
+	dropped     map[int]bool // columns removed with DropColumn (may be re-created by ActLateColumn)
+	lastBeat    int64        // unix nanoseconds of the last sign of progress (atomic)
+	stopBeat    chan struct{}
+	traceMu     sync.Mutex
 	// C14: a second Snapshot call issued at this yield point of a snapshot in progress (see installTail)
 	OverlapAt   string
 	OverlapRan  bool
@@ -37,11 +39,11 @@ type Machine struct {
 	// yield point of the snapshot in progress (see installTail)
 	BigTailAt string
 	BigTail   func()
-	Prop        string
-	Sch         *Schema
-	M           *Model
-	C           *column.Collection
-	Opts        column.Options
+	Prop      string
+	Sch       *Schema
+	M         *Model
+	C         *column.Collection
+	Opts      column.Options
 
 	Trace  []string
 	Flags  map[string]bool
@@ -538,7 +540,7 @@ func (mc *Machine) ActBulkDelete(t *rapid.T) {
 func (mc *Machine) ActLateColumn(t *rapid.T) {
 	var pending []int
 	for i, cs := range mc.Sch.Cols {
-		if cs.Late && !mc.M.ColLive[i] {
+		if (cs.Late || mc.dropped[i]) && !mc.M.ColLive[i] {
 			pending = append(pending, i)
 		}
 	}
@@ -554,6 +556,52 @@ func (mc *Machine) ActLateColumn(t *rapid.T) {
 	if len(mc.M.Rows) > 0 {
 		mc.flag("late-column")
 	}
+	if mc.dropped[ci] {
+		mc.flag("column-re-created-after-drop")
+		delete(mc.dropped, ci)
+	}
+}
+
+// ActDropColumn drops a value column that no index of the machine is built on; it may come back
+// later (ActLateColumn) as a brand-new column of the same name: nothing of its former values may
+// show through.
+func (mc *Machine) ActDropColumn(t *rapid.T) {
+	var cands []int
+	for i, cs := range mc.Sch.Cols {
+		if i == 0 || !mc.M.ColLive[i] || cs.Kind == KKey {
+			continue
+		}
+		indexed := false
+		for _, st := range mc.Indexes {
+			if st.Spec.Col == i {
+				indexed = true
+			}
+		}
+		if !indexed {
+			cands = append(cands, i)
+		}
+	}
+	if len(cands) <= 1 {
+		t.Skip("no column to drop (one value column is always kept)")
+	}
+	ci := cands[rapid.IntRange(0, len(cands)-1).Draw(t, "drop-col")]
+	mc.logf("dropColumn %s (rows=%d)", mc.Sch.Cols[ci].Name, len(mc.M.Rows))
+	mc.C.DropColumn(mc.Sch.Cols[ci].Name)
+	mc.M.ColLive[ci] = false
+	for _, row := range mc.M.Rows {
+		row[ci] = Cell{}
+	}
+	for _, held := range mc.everDeleted {
+		if ci < len(held) {
+			held[ci] = false
+		}
+	}
+	if mc.dropped == nil {
+		mc.dropped = map[int]bool{}
+	}
+	mc.dropped[ci] = true
+	mc.M.dirty()
+	mc.flag("column-dropped")
 }
 
 // CheckCount compares Collection.Count with the model.
